@@ -611,3 +611,50 @@ def fam_maxslots(rng, cfgs=(CFG_BIG, CFG_BIG2)):
                 ff(cfg["D"] * 6 + cfg["G"] + 2, "each"), sub(1), sub(2)]
         out.append(scen("maxslots-S%d" % cfg["S"], cfg, ops))
     return out
+
+
+def apoll(name, ms=1500):
+    """A poll on the chain-monitor thread (it may block inside the code under test), joined within ms."""
+    return [{"op": "spawn_poll", "thread": name}, {"op": "join", "thread": name, "ms": ms}, {"op": "end_async"}]
+
+
+def fam_outage(rng, cfg=CFG_A, ms=1500):
+    """C12: bitcoind outages on the request path and on the block-processing path, of several lengths, with and without
+    blocks mined meanwhile; block / header download failures in the middle of a multi-block poll.  Every poll that may
+    have to answer a breach runs on its own thread and is joined within `ms` (recovery must not need operator action)."""
+    out = []
+    down, up = {"op": "node", "up": False}, {"op": "node", "up": True}
+    refused = [reg(2), get(1, 1), sub(1), add(1, 2, valid(2))]
+    # (a) request path: the node goes away while a late appointment is being answered; k further polls fail; no new block
+    for k in (0, 1, 2):
+        ops = [reg(1), mine([D(1)]), down, {"op": "spawn_add", "thread": "T1", "u": 1, "l": D(1), "blob": valid(1)},
+               {"op": "wait_flag", "reachable": False}] + refused
+        ops += [POLL] * k + refused[:2] + [up, POLL, {"op": "join", "thread": "T1", "ms": ms}, {"op": "end_async"}, get(1, 1), sub(1), reg(2),
+                                           mine([P(1)], poll=False)] + apoll("P9", ms) + [get(1, 1)]
+        out.append(scen("outage-request-k%d" % k, cfg, ops))
+    # (b) request path, a block is mined during the outage
+    ops = [reg(1), mine([D(1)]), down, {"op": "spawn_add", "thread": "T1", "u": 1, "l": D(1), "blob": valid(1)},
+           {"op": "wait_flag", "reachable": False}] + refused[:2] + [up, mine([], poll=False), {"op": "spawn_poll", "thread": "P1"},
+           {"op": "join", "thread": "T1", "ms": ms}, {"op": "join", "thread": "P1", "ms": ms}, {"op": "end_async"}, get(1, 1), sub(1)]
+    out.append(scen("outage-request-newblock", cfg, ops))
+    # (c) block-processing path: the transaction RPC fails while the breach of a block is being answered
+    for k in (0, 1):
+        ops = [reg(1), add(1, 1, valid(1)), {"op": "rpc_up", "up": False}, mine([D(1)], poll=False), {"op": "spawn_poll", "thread": "P1"},
+               {"op": "wait_flag", "reachable": False}] + refused[:3] + [{"op": "rpc_up", "up": True}]
+        if k:
+            ops += [mine([], poll=False)]
+        ops += [{"op": "join", "thread": "P1", "ms": ms}, {"op": "end_async"}, get(1, 1), sub(1)]
+        out.append(scen("outage-block-k%d" % k, cfg, ops))
+    # (d) plain outage of k polls between requests; the blocks mined meanwhile (with breaches) are processed afterwards
+    for k in (1, 2, 3):
+        ops = [reg(1), add(1, 1, valid(1)), add(1, 2, valid(2)), down] + [POLL] * k + refused + [mine([D(1)], poll=False), POLL, up,
+               mine([D(2)], poll=False)] + apoll("P1", ms) + [get(1, 1), get(1, 2), reg(2), sub(1)]
+        out.append(scen("outage-idle-k%d" % k, cfg, ops))
+    # (e) download failures in the middle of a multi-block poll (no restart): everything is answered by the following polls
+    for kind in ("block", "header", "best"):
+        for off in (0, 1, 2):
+            ops = [reg(1), add(1, 1, valid(1)), add(1, 2, valid(2)), mine([], poll=False), mine([D(1)], poll=False), mine([D(2)], poll=False),
+                   {"op": "fault", "kind": kind, "offset": off, "times": 1, "transient": rng.random() < 0.5}]
+            ops += apoll("P1", ms) + [get(1, 1), get(1, 2), reg(2)] + apoll("P2", ms) + [get(1, 1), get(1, 2)] + apoll("P3", ms) + [sub(1)]
+            out.append(scen("outage-download-%s-%d" % (kind, off), cfg, ops))
+    return out
